@@ -328,6 +328,47 @@ func RunHTTPUpgrader(u ws.HTTPUpgrader, data []byte) (out []byte, hsk ws.Handsha
 	return conn.Out.Bytes(), hsk, err, false
 }
 
+// streamConn is a net.Conn over any reader (the transport decides how reads are cut).
+type streamConn struct {
+	memConn
+	r io.Reader
+}
+
+func (c *streamConn) Read(p []byte) (int, error) { return c.r.Read(p) }
+
+// RunHTTPUpgraderStream serves data the way net/http does: the request is parsed from a
+// bufio.Reader over the connection, and Hijack hands that very reader - with whatever it
+// buffered beyond the request - to the upgrader. It returns the bytes written, the outcome,
+// and every byte that is still readable afterwards (reader first, then connection).
+func RunHTTPUpgraderStream(u ws.HTTPUpgrader, src io.Reader) (out []byte, hsk ws.Handshake, err error, rest []byte, skipped bool) {
+	conn := &streamConn{r: src}
+	br := bufio.NewReader(conn)
+	req, perr := http.ReadRequest(br)
+	if perr != nil {
+		return nil, hsk, nil, nil, true
+	}
+	w := &hijackStream{hijackWriter{conn: &conn.memConn, header: http.Header{}}, conn, br}
+	_, rw, hsk, err := u.Upgrade(req, w)
+	if err == nil && rw != nil {
+		b, _ := io.ReadAll(rw.Reader)
+		rest = b
+	} else {
+		b, _ := io.ReadAll(br)
+		rest = b
+	}
+	return conn.Out.Bytes(), hsk, err, rest, false
+}
+
+type hijackStream struct {
+	hijackWriter
+	c  *streamConn
+	br *bufio.Reader
+}
+
+func (h *hijackStream) Hijack() (net.Conn, *bufio.ReadWriter, error) {
+	return h.c, bufio.NewReadWriter(h.br, bufio.NewWriter(h.c)), nil
+}
+
 // RunUpgradeHTTP is RunHTTPUpgrader through the package-level ws.UpgradeHTTP.
 func RunUpgradeHTTP(data []byte) (out []byte, hsk ws.Handshake, err error, skipped bool) {
 	req, perr := http.ReadRequest(bufio.NewReader(bytes.NewReader(data)))
